@@ -198,17 +198,27 @@ def mk_ada(kind):
 def h_validate(ctx):
     maxlen = ctx.params["max_chain"]
     hlib.reset_finam_state()
-    src_kind = ["time", "pull", "static"][ctx.choice("src_kind", 3)]
-    sink_kind = ["pull", "push", "static"][ctx.choice("sink_kind", 3)]
-    n = ctx.choice("chain_len", (1 if src_kind == "static" else maxlen) + 1)
-    kinds = [ADAS[ctx.choice(f"ada{k}", 1 if src_kind == "static" else len(ADAS))] for k in range(n)]
-    fan = ctx.choice("fanout_at", n + 2)  # n+1 = no fan-out; p <= n: element p (0 = the output) gets a 2nd target
-    fan = None if fan == n + 1 else fan
-    missing = ["none", "source", "sink", "sink2"][ctx.choice("missing", 4)]
-    if missing == "sink2" and fan is None:
-        ctx.cut("no second branch")
-    order = ctx.choice("listing", 3)  # 0: source first, 1: sinks first, 2: sink, source, sink2
-    dangling = ctx.flag("unconnected_extra_input")
+    focus = ctx.params.get("focus")
+    if focus == "branching":
+        # only the fan-out dimension, but longer chains
+        src_kind, sink_kind = "time", "pull"
+        n = ctx.choice("chain_len", maxlen + 1)
+        bk = ["scale", "linear", "dpull"]
+        kinds = [bk[ctx.choice(f"ada{k}", 3)] for k in range(n)]
+        fan = ctx.choice("fanout_at", n + 1)
+        missing, dangling, order = "none", False, 0
+    else:
+        src_kind = ["time", "pull", "static"][ctx.choice("src_kind", 3)]
+        sink_kind = ["pull", "push", "static"][ctx.choice("sink_kind", 3)]
+        n = ctx.choice("chain_len", (1 if src_kind == "static" else maxlen) + 1)
+        kinds = [ADAS[ctx.choice(f"ada{k}", 1 if src_kind == "static" else len(ADAS))] for k in range(n)]
+        fan = ctx.choice("fanout_at", n + 2)  # n+1 = no fan-out; p <= n: element p (0 = the output) gets a 2nd target
+        fan = None if fan == n + 1 else fan
+        missing = ["none", "source", "sink", "sink2"][ctx.choice("missing", 4)]
+        if missing == "sink2" and fan is None:
+            ctx.cut("no second branch")
+        order = ctx.choice("listing", 3)  # 0: source first, 1: sinks first, 2: sink, source, sink2
+        dangling = ctx.flag("unconnected_extra_input")
     src = {"time": TimeSrc, "pull": PullSrc, "static": StaticSrc}[src_kind]()
     sink = Sink(sink_kind, n_inputs=2 if dangling else 1)
     sink2 = Sink("pull") if fan is not None else None
@@ -341,6 +351,11 @@ def families(tier):
             for n in ((0, 1, 2, 3) if q else (0, 1, 2, 3, 4))]
     fams.append(dict(name="flags", ref="vf.props.c19:h_flags", params={}, bounds="15 real slot/adapter classes",
                      must_cover=["done"]))
+    fams.append(dict(name="validate:branching", ref="vf.props.c19:h_validate",
+                     params={"max_chain": 4 if q else 5, "focus": "branching"},
+                     bounds=f"time source -> chains of 0-{4 if q else 5} adapters from (Scale, LinearTime, DelayToPull) -> "
+                            f"pull sink, second consumer attached at every position",
+                     must_cover=["ok", "connect-error"]))
     fams.append(dict(name="validate:real", ref="vf.props.c19:h_validate", params={"max_chain": 2 if q else 3},
                      bounds=f"real topologies, adapter chains up to {2 if q else 3}", must_cover=["ok", "connect-error"]))
     return fams
